@@ -236,6 +236,9 @@ def _histories(max_len=2):
     out += [("measure_same", "other_handle_other_edges"), ("measure_same", "other_handle_unbinned"), ("same", "other_handle_other_edges")]
     # trees cached for edges that differ from the requested ones only in the sixth digit (records lie between the two edges)
     out += [("nearly_same_edges",)]
+    # an earlier *measurement* in the same process with the same number of bins but other edges / the other closed side: what the
+    # process loaded then must not be used now
+    out += [("same_count_measurement",), ("same_count_measurement", "other_closed")]
     return out
 
 
@@ -292,6 +295,9 @@ def _run_histories(max_len=2, limit=None):
                         cats[2].build_trees([0.1, 0.9, 1.0], closed="left", force=True)
                     elif op == "reopen":
                         cats = [yaw.Catalog(c.cache_directory) for c in cats]
+                    elif op == "same_count_measurement":
+                        other = yaw.Configuration.create(rmin=200, rmax=5000, edges=[0.1, 0.25, 0.55, 1.0], closed="right")
+                        measure(cats, other)
                     elif op == "nearly_same_edges":
                         for c in cats:
                             if c.has_redshifts:
